@@ -20,6 +20,8 @@ pub struct State {
     pub certs_checked: u64,
     pub first_appearances: u64,
     pub shrinks_seen: u64,
+    /// (parent, child) of an unsuspend operation that just completed.
+    pub just_unsuspended: Option<(String, String)>,
 }
 
 /// Instant invariant over the stored object set of every CA: what the CA is
@@ -91,9 +93,16 @@ pub fn instant(r: &mut Runner) {
                             // shrank, issuer rolled its key, child was
                             // unsuspended) carries what the previous
                             // certificate and the issuer's still share.
-                            let ok_reissue = prev.as_ref().map(|(_, old)| {
-                                old.intersection(&set.signing_resources) == res
-                            }).unwrap_or(false);
+                            // Waking up a suspended child is not such a
+                            // re-issue: the certificate kept aside may only
+                            // come back if the entitlement still covers it.
+                            let woken = r.ext.c02.just_unsuspended.as_ref()
+                                == Some(&(name.clone(), child.clone()));
+                            let ok_reissue = !woken
+                                && prev.as_ref().map(|(_, old)| {
+                                    old.intersection(&set.signing_resources)
+                                        == res
+                                }).unwrap_or(false);
                             if let Some((_, old)) = &prev {
                                 if old != &res {
                                     r.ext.c02.shrinks_seen += 1;
@@ -125,9 +134,16 @@ pub fn instant(r: &mut Runner) {
             }
         }
     }
+    r.ext.c02.just_unsuspended = None;
 }
 
 pub fn after_task(_r: &mut Runner) { }
+
+/// Called by the runner when an unsuspend operation has completed; the
+/// instant check that follows looks at what it re-issued.
+pub fn note_unsuspended(r: &mut Runner, parent: &str, child: &str) {
+    r.ext.c02.just_unsuspended = Some((parent.to_string(), child.to_string()));
+}
 
 pub fn at_caught_up(_r: &mut Runner, _repo_inst: usize, _rpres: &RpResult) { }
 
